@@ -41,4 +41,15 @@ def run(tier):
     cr.bounded_check(_rce, "locked-wire-colours-box", _c02.locked_colors, largs,
                      f"{len(largs)} plans: every subset of (gated cell, folded cell, bundle OP signal, each CMP signal, gate over a merged bundle): the cell's gates and data on red, "
                      "the write enable on green, the folded cell's feedback on red (contract evaluated on the real LayoutPlanner._determine_locked_wire_colors)")
+    from contracts import c13 as _c13
+    aargs = _c13.analyze_arg_sets()
+    cr.bounded_check(_rce, "signal-usage-box", _c13.analyze_c, aargs,
+                     f"{len(aargs)} IR lists (one consumer of every kind over anonymous / declared constants): operands make consumers; the data and the ENABLE of a memory write and an "
+                     "entity property are read from a wire, so their constants exist as combinators; constants that only feed operands are inlined (contract evaluated on the real "
+                     "SignalAnalyzer.analyze)")
+    from contracts import c04 as _c04
+    cargs = _c04.cleanup_arg_sets()
+    cr.bounded_check(_rce, "cleanup-gates-box", _c04.cleanup_gates, cargs,
+                     f"{len(cargs)} plans of two cells: exactly the unused gates and the enable constant of a folded cell disappear with their wires (contract evaluated on the real "
+                     "MemoryBuilder.cleanup_unused_gates)")
     return cr.finish()
